@@ -7,7 +7,11 @@ C07 (binned law):
   c07.edges  n maxL m                         -> m × hex          upper class edges `(i / n) * maxL`, i = 1..m
   c07.lookup m <m loads> <m values> x…        -> per x: hex | ValueError       single table, one answer per load
   c07.pos    m <m loads> x…                   -> per x: position (np.searchsorted, 0-based)
-  c07.multi  m p <m·p loads> <m·p values> <p x>   -> ValueError | p × hex     per-point table, class-major rows
+  c07.series m <m loads> <m values> x…        -> per x: hex | ValueError       Series on a single table (NaN -> 0)
+  c07.multi  m p <m·p loads> <m·p values> x…  -> ValueError | p × hex     per-point table (class-major rows), every
+                                                 point in its own column; ValueError unless exactly p loads
+  c07.multifirst m p <m·p loads> <m·p values> x… -> ValueError | hex…     the same as coded before the repair (class of
+                                                 the first point for all points)
 
 C06 (defining functions / reference roots); kind ∈ np (Neuber primary), ns (Neuber secondary),
 sp (Seeger-Beste primary), ss (Seeger-Beste secondary):
@@ -59,6 +63,23 @@ def rootLoad (kind : String) (m : Mat Float) (F : Float → Float → Float) (s 
     let t := bisect (fun t => if isNeuber kind then F s (-t) else -(F s (-t))) 200 a (m.Kp * a)
     fNeg t
 
+/-- `c07.multi` (repaired per-point look-up) / `c07.multifirst` (class of the first point for all points, as coded
+before the repair) on a class-major per-point table; any number of loads may follow the table. -/
+def multi (first : Bool) (m p : String) (rest : List String) : Option String := do
+  let m ← m.toNat?
+  let p ← p.toNat?
+  let loads ← parseFloats (rest.take (m * p))
+  let vals ← parseFloats ((rest.drop (m * p)).take (m * p))
+  let xs ← parseFloats (rest.drop (2 * m * p))
+  if loads.length ≠ m * p ∨ vals.length ≠ m * p then none
+  else
+    let lrows := splitLens (List.replicate m p) loads
+    let vrows := splitLens (List.replicate m p) vals
+    let r := if first then lookupMultiFirst (lrows.zip vrows) xs else lookupMulti p (lrows.zip vrows) xs
+    match r with
+    | some r => some (joinFloats r)
+    | none => some "ValueError"
+
 def handle : List String → Option String
   | ["c07.edges", n, maxL, m] => do
     let n ← n.toNat?
@@ -77,19 +98,15 @@ def handle : List String → Option String
     let loads ← parseFloats (rest.take m)
     let xs ← parseFloats (rest.drop m)
     some (joinNats (xs.map fun x => searchsorted loads (absM x)))
-  | "c07.multi" :: m :: p :: rest => do
+  | "c07.series" :: m :: rest => do
     let m ← m.toNat?
-    let p ← p.toNat?
-    let loads ← parseFloats (rest.take (m * p))
-    let vals ← parseFloats ((rest.drop (m * p)).take (m * p))
-    let xs ← parseFloats (rest.drop (2 * m * p))
-    if loads.length ≠ m * p ∨ vals.length ≠ m * p ∨ xs.length ≠ p then none
-    else
-      let lrows := splitLens (List.replicate m p) loads
-      let vrows := splitLens (List.replicate m p) vals
-      match lookupMulti (lrows.zip vrows) xs with
-      | some r => some (joinFloats r)
-      | none => some "ValueError"
+    let loads ← parseFloats (rest.take m)
+    let vals ← parseFloats ((rest.drop m).take m)
+    let xs ← parseFloats (rest.drop (2 * m))
+    if loads.length ≠ m ∨ vals.length ≠ m then none
+    else some (" ".intercalate (xs.map fun x => showOpt (lookupSeries (loads.zip vals) x)))
+  | "c07.multi" :: m :: p :: rest => multi false m p rest
+  | "c07.multifirst" :: m :: p :: rest => multi true m p rest
   | ["c06.F", kind, e, k, n, kp, s, l] => do
     let m : Mat Float := { E := ← parseFloat? e, K := ← parseFloat? k, n := ← parseFloat? n, Kp := ← parseFloat? kp }
     let s ← parseFloat? s
